@@ -63,6 +63,41 @@ class ModuleInfo:
         self.warnings = []
 
 
+_KNOWN = None
+
+
+def known_symbols():
+    global _KNOWN
+    if _KNOWN is None:
+        import json
+        p = os.path.join(os.path.dirname(os.path.abspath(__file__)), 'known_symbols.json')
+        _KNOWN = json.load(open(p)) if os.path.exists(p) else {}
+    return _KNOWN
+
+
+def _prenormalise(modname, tree):
+    """behaviour-preserving rewrites applied to every module before it is indexed (disable with SA_NORMALISE=0):
+    helpers that the pinned tree does not have are inlined into their callers (sa/inline.py)"""
+    if os.environ.get('SA_NORMALISE', '1') == '0':
+        return tree
+    k = known_symbols().get(modname)
+    if k is None:
+        return tree
+    from .inline import inline_unknown
+    tree, _ = inline_unknown(tree, k['functions'], k['methods'])
+    # functions of the pinned tree: spellings the pinned version does not use are rewritten (sa/normal.py)
+    from .normal import normalise_function
+    for i, s in enumerate(tree.body):
+        if isinstance(s, ast.FunctionDef) and s.name in k['locals']:
+            tree.body[i] = normalise_function(s, k['locals'][s.name], k.get('spellings', {}).get(s.name, ()))
+        elif isinstance(s, ast.ClassDef):
+            for j, m in enumerate(s.body):
+                if isinstance(m, ast.FunctionDef) and f'{s.name}.{m.name}' in k['locals']:
+                    s.body[j] = normalise_function(m, k['locals'][f'{s.name}.{m.name}'],
+                                                   k.get('spellings', {}).get(f'{s.name}.{m.name}', ()))
+    return tree
+
+
 class Repo:
     def __init__(self, root=None):
         self.root = root or REPO_ROOT
@@ -91,6 +126,7 @@ class Repo:
                     tree = ast.parse(src, filename=path)
                 except SyntaxError as e:
                     raise AnalysisError(f'{path} does not parse: {e}')
+            tree = _prenormalise(fn[:-3], tree)
             mod = ModuleInfo(fn[:-3], path, src, tree)
             mod.warnings = [str(w.message) for w in wl]
             self._index_module(mod)
